@@ -18,7 +18,7 @@ CHECKS = {
     ),
     "C02": dict(
         engine="storewalk",
-        technique="explicit-state search over reachable header stores (every arrival order of every subset of every blueprint); in every store the complete product (stored roots + unknown) x (heights -1..tip+excess+2, MaxInt32) x excess {0,1,6} is verified through the service and POST /chain/merkleroot/verify, oracle = reference tree",
+        technique="explicit-state search over reachable header stores (every arrival order of every subset of every blueprint); in every store the complete product (stored roots + unknown) x (heights -1..tip+excess+2, MaxInt32) x excess {0,1,6,MaxInt32} is verified through the service and POST /chain/merkleroot/verify, oracle = reference tree",
         text="Exhaustive within the bound (N<=4 quick, reorg-capable N=5 thorough): every store reachable by ingestion incl. post-reorg stores and stale/orphan headers sharing a height with longest ones; per store every (root, height, excess) verdict, list order, per-item independence (all ordered pairs of verdict-class representatives incl. duplicates) and the aggregate. Lists longer than the full product and other excess values are not covered.",
         design="§3 C02",
     ),
